@@ -25,7 +25,10 @@ type Space struct {
 	MinT    int         // if >0 enumerate all words of length MinT..T (shortest first)
 	Inits   [][]float64 // nil or empty => model-initialised states only; a nil entry = model-initialised
 	Prefix  [][]int     // optional prefixes (letter indices) prepended to each word; nil => none
+	Repeat  int         // >1: every word is repeated this many times (long periodic series)
 	Oracle  func(c *Case, r *vf.Rec)
+	// SecondPassEvery: every n-th case is also run twice on the same input arrays (0 = every case, <0 = never)
+	SecondPassEvery int
 	// derived
 	nw   []int64 // words per length
 	nTot int64
@@ -95,7 +98,10 @@ func (s *Space) decode(i int64) *Case {
 	}
 	c := &Case{S: s, PIdx: p, Params: s.Params[p], Init: s.Inits[ii], IIdx: ii, Pre: s.Prefix[pre]}
 	c.Word = vf.Word(w, len(s.Letters), L)
-	c.Seq = append(append([]int{}, c.Pre...), c.Word...)
+	c.Seq = append([]int{}, c.Pre...)
+	for k := 0; k < s.Repeat || k == 0; k++ {
+		c.Seq = append(c.Seq, c.Word...)
+	}
 	c.T = len(c.Seq)
 	c.Inputs = s.InputsFor(c.Seq)
 	return c
@@ -186,6 +192,41 @@ func (e *Enum) Run(i int64, r *vf.Rec) {
 	c := e.Case(i)
 	r.Count("cases/"+c.S.Name, 1)
 	c.S.Oracle(c, r)
+	stride := int64(c.S.SecondPassEvery)
+	if stride == 0 {
+		stride = 1
+	}
+	if stride > 0 && i%stride == 0 && len(c.Inputs) > 0 && (c.Init == nil || len(c.Init) > 0) { // an empty non-nil Init is an oracle's own marker
+
+		secondPass(e.ID, c, r)
+	}
+}
+
+// secondPass: a model must treat its input series as read-only, so running it twice on the SAME input arrays
+// (fresh model object and states each time) must leave the inputs bit-identical and give bit-identical results.
+func secondPass(id string, c *Case, r *vf.Rec) {
+	in := mrun.Inputs3([][][]float64{c.Inputs}, len(c.Inputs), c.T)
+	a := mrun.RunOnInputs(mrun.New(c.S.Model, mrun.Col(c.Params)), in, c.Init)
+	for k := range c.Inputs {
+		for t := 0; t < c.T; t++ {
+			if !mrun.SameBits(in.Get3(0, k, t), c.Inputs[k][t]) {
+				r.Failf(id+"/"+c.S.Model+"/run-modifies-its-input-series", map[string]interface{}{"input": k, "t": t, "was": c.Inputs[k][t], "now": in.Get3(0, k, t)},
+					"%s: Run changed input %d at t=%d from %v to %v", c.S.Model, k, t, c.Inputs[k][t], in.Get3(0, k, t))
+				return
+			}
+		}
+	}
+	b := mrun.RunOnInputs(mrun.New(c.S.Model, mrun.Col(c.Params)), in, c.Init)
+	r.Count("second_passes_on_the_same_input_arrays", 1)
+	for o := range a.Out {
+		for t := range a.Out[o] {
+			if !mrun.SameBits(a.Out[o][t], b.Out[o][t]) {
+				r.Failf(id+"/"+c.S.Model+"/second-run-on-the-same-inputs-differs", map[string]interface{}{"output": o, "t": t, "first": a.Out[o][t], "second": b.Out[o][t]},
+					"%s: a second run on the same input arrays gives output %d t=%d = %v instead of %v", c.S.Model, o, t, b.Out[o][t], a.Out[o][t])
+				return
+			}
+		}
+	}
 }
 
 func (e *Enum) Describe(i int64) interface{} {
